@@ -5,7 +5,7 @@ from .. import rules_cxx as rc
 from .. import rules_pyx as rp
 from ..parse_model import ParseModel
 from ..core import AnalysisError, enclosing_function, qualname_of, src
-from ..pysym import SymExec, show
+from ..pysym import SymExec, show, argof
 from ..rules_pyx import bind_args, N, C, A
 
 EXPLANATION = (
@@ -64,7 +64,7 @@ def r_label_recovery(repo, rep, R='R12.4'):
     rep.check(not mutated and not deco, R, w, 'guess:pure', 'guess_combinator_by_triplet keeps no state between calls (no memo, no decorator)',
               'guess_combinator_by_triplet modifies %s / is decorated with %s: the label of a node would depend on earlier calls' % (sorted(mutated), deco))
     unk = [st.ret for st, out in paths if out == 'return' and st.ret and st.ret[0] == 'call' and st.ret[1] == N('CombinatorResult')]
-    ok = bool(unk) and all(dict(u[3]).get('cat') == N(target) for u in unk)
+    ok = bool(unk) and all(argof(u, 'cat', 0) == N(target) for u in unk)
     rep.check(ok, R, w, 'guess:unk-cat', 'the unknown result keeps the node\'s own category', 'the <unk> result does not carry the target category')
 
 
